@@ -43,6 +43,12 @@ def cases(draw, tier):
             if draw(st.booleans()):
                 prog.append({"op": "add", "a": draw(st.integers(0, 20)), "b": draw(st.integers(0, 20)), "meth": 0})
             prog.append(draw(T.trunc_instr()))
+        elif k == 10 and draw(st.integers(0, 2)) == 0:
+            # mixed dtypes inside one state, then arithmetic on it
+            a = draw(st.integers(0, 20))
+            prog.append({"op": "hand_complex", "a": a, "node": draw(st.integers(0, 8))})
+            prog.append({"op": "add", "a": a, "b": draw(st.integers(0, 20)), "meth": draw(st.integers(0, 1))})
+            prog.append({"op": "add", "a": draw(st.integers(0, 20)), "b": a, "meth": draw(st.integers(0, 1))})
         elif k == 10:
             prog.append(draw(T.twin_instr()))
         else:
